@@ -407,7 +407,9 @@ def judge_ops(a, b, r):
     kind, v = res_json(r)
     if kind == "panic" or kind == "crash":
         return "violation", None, "comparison operator crashed"
-    defined_expected = (a["kind"] in ("int", "float") and b["kind"] in ("int", "float")) or (a["kind"] == "str" and b["kind"] == "str")
+    def plain_num(x):
+        return x["kind"] == "float" or (x["kind"] == "int" and int_floatable(x))
+    defined_expected = (a["kind"] == "int" and b["kind"] == "int") or (plain_num(a) and plain_num(b)) or (a["kind"] == "str" and b["kind"] == "str")
     if kind != "ok":
         if defined_expected:
             return "violation", None, "operators undefined on comparable operands: %r" % (v,)
@@ -444,7 +446,7 @@ def judge_superl(scalars, greater, r):
         return ("ok", None, "") if kind == "empty" else ("violation", None, "min/max of an empty sequence produced %r" % (v,))
     kinds = set("num" if is_number(s) else s["kind"] for s in scalars)
     if kind == "err":
-        if kinds <= {"num"} and all(s["kind"] in ("int", "float") for s in scalars) or kinds <= {"str"}:
+        if kinds <= {"num"} and all(s["kind"] == "float" or (s["kind"] == "int" and int_floatable(s)) for s in scalars) or kinds <= {"str"}:
             return "violation", None, "min/max undefined on comparable operands: %r" % (v,)
         return "ok", None, "undefined"
     if kind != "ok":
